@@ -291,6 +291,21 @@ func c01Total(c *vlib.Ctx) {
 				c.End()
 			}
 		}
+		// structure-aware variants (tail stretched, covering length fields adjusted) of some seeds
+		for si := 0; si < min(len(cp.Seeds[t]), c.Pick(5, 60)); si++ {
+			idx++
+			if !c.Begin(idx) {
+				continue
+			}
+			r := c.Rand(uint64(t), 888888, uint64(si))
+			seed := cp.Seeds[t][(si*7)%len(cp.Seeds[t])]
+			vs, hows := cp.Structural(seed)
+			for i, b := range vs {
+				c01One(c, r, t, b, hows[i])
+			}
+			c.Count("structural_variants", len(vs))
+			c.End()
+		}
 		c.CountIn("inputs_per_layer_type", t.String(), perType)
 		if c.WantSample() && len(cp.Seeds[t]) > 0 {
 			c.Sample(map[string]any{"layer_type": t.String(), "seed_hex": hx(cp.Seeds[t][0][:min(len(cp.Seeds[t][0]), 80)]), "option_sets": 16})
